@@ -142,6 +142,8 @@ func (n *Nine) Do(step []any) (Obs, error) {
 		case "H":
 			perm |= DMLINK
 			ext = itoa(fidBase + toInt(step[7]))
+		case "P":
+			perm |= 0x00200000 // DMNAMEDPIPE
 		}
 		m = &wire.Msg{Type: wire.Tcreate, Fid: fid, Name: nm.Raw(toStr(step[2])), Perm: perm, Mode: uint8(toInt(step[5])), Ext: ext}
 	case "Remove":
@@ -668,7 +670,9 @@ func (c *Case) Step(step []any) (bool, error) {
 			pcls := cls
 			if cls != "drift" {
 				switch act {
-				case "Walk", "Attach", "Stat", "Clunk":
+				case "Walk", "Attach", "Stat", "Clunk", "Open":
+					// (Topen is not one of the mutating requests of C17; what a fid designates and what its stat
+					// says after it was opened is C16's "always")
 					pcls = "c16"
 				default:
 					pcls = "c17"
